@@ -69,8 +69,8 @@ def mc(name, quick=True, **kw):
 
 
 MC = {
-    "C01": [mc("MC_Line")], "C02": [mc("MC_Line")], "C03": [mc("MC_Line"), mc("MC_Args")], "C04": [mc("MC_Args")], "C05": [mc("MC_Args")],
-    "C06": [mc("MC_Line")], "C07": [mc("MC_Args")], "C08": [mc("MC_Args")], "C09": [mc("MC_Flags")], "C10": [mc("MC_Codes")],
+    "C01": [mc("MC_Line")], "C02": [mc("MC_Line")], "C03": [mc("MC_Line"), mc("MC_Args")], "C04": [mc("MC_Args"), mc("MC_FnNum", module="MC_Fn", function_level=True)], "C05": [mc("MC_Args"), mc("MC_FnBuf", module="MC_Fn", function_level=True)],
+    "C06": [mc("MC_Line")], "C07": [mc("MC_FnNum", module="MC_Fn", function_level=True), mc("MC_FnBuf", module="MC_Fn", function_level=True)], "C08": [mc("MC_Args"), mc("MC_FnBuf", module="MC_Fn", function_level=True)], "C09": [mc("MC_Flags")], "C10": [mc("MC_Codes")],
     "C11": [mc("MC_Sched")], "C12": [mc("MC_Sched")], "C13": [mc("MC_Ring"), mc("MC_Sched")], "C14": [mc("MC_Hold")],
     "C15": [mc("MC_Live"), mc("MC_Sched", quick=False)], "C16": [mc("MC_Mutex")], "C17": [mc("MC_Threads", module="CatThreads")], "C18": [mc("MC_Sched"), mc("MC_Hold")],
     "C19": [mc("MC_List")], "C20": [mc("MC_Hist")],
@@ -112,3 +112,19 @@ CLAIMS = {
     "C19": _c("TestText / ListBlocks predict the '=?' response and the command list; MC_List: 32 descriptors x capacities 6,7,8,20; executions: random descriptors and capacities around the text length, by line and by event, with flag changes."),
     "C20": _c("MC_Hist: HavocScratch overwrites every stale per-line field at line boundaries; executions: line sequences in all orders on objects pre-filled with 0x00/0x55/0xA5/0xFF, fed in one piece or line by line; predictions are per line, so agreement is history independence; newline style from the line's CR."),
 }
+
+PROPS["C03"]["families"] = [GENERAL_S, fam("fam_bounds", 40, 800), fam("fam_buf", 20, 400), fam("fam_num", 20, 400), fam("fam_lanes_exact", 12, 200)]
+PROPS["C05"]["families"] = [GENERAL_S, fam("fam_buf", 60, 1500)]
+PROPS["C06"]["families"] = [GENERAL_S, fam("fam_bounds", 50, 1000)]
+PROPS["C07"]["families"] = [fam("fam_round", 40, 1500), fam("fam_round_exh8", 12, 60), fam("fam_access", 20, 300)]
+PROPS["C08"]["families"] = [GENERAL_S, fam("fam_access", 60, 1500)]
+PROPS["C09"]["families"] = [GENERAL_S, fam("fam_flags", 40, 1000)]
+PROPS["C10"]["families"] = [GENERAL_S, fam("fam_codes", 40, 1000)]
+PROPS["C11"]["families"] = [GENERAL_S, fam("fam_sched", 48, 1200)]
+PROPS["C12"]["families"] = [GENERAL_S, fam("fam_sched", 32, 800), fam("fam_conf", 48, 1200)]
+PROPS["C13"]["families"] = [GENERAL_S, fam("fam_ring", 24, 400), fam("fam_quiesce", 10, 200)]
+PROPS["C14"]["families"] = [GENERAL_S, fam("fam_hold", 40, 800)]
+PROPS["C15"]["families"] = [GENERAL_S, fam("fam_quiesce", 40, 800), fam("fam_sched", 16, 200)]
+PROPS["C16"]["families"] = [fam("fam_mutex", 64, 1600), {"name": "fam_general_mutex", "gen": fam_general(lines=3, mutex=True), "quick": 30, "thorough": 600}]
+PROPS["C18"]["families"] = [GENERAL_S, fam("fam_sched", 32, 800), fam("fam_hold", 16, 300)]
+PROPS["C20"]["families"] = [GENERAL_S, fam("fam_hist", 80, 2000)]
